@@ -94,9 +94,11 @@ def corr_fnmatch(ctx):
 
 PATHS = ["a.py", "b.py", "x.txt", "src/a.py", "src/b.py", "src/pkg/c.py", "tests/t.py", "tests/unit/u.py", "test/z.py", "build/g.py",
          "venv/lib/v.py", ".git/hooks/h.py", "conftest.py", "src/tests/s.py", "src/__tests__/q.py", "docs/conf.py", "a.pyi", "dist/d.py",
-         "lib/site-packages/p.py", ".coveragerc", "src/build/k.py", "app/tests/x.py"]
+         "lib/site-packages/p.py", ".coveragerc", "src/build/k.py", "app/tests/x.py", ".ci/deploy.py", ".ci/sub/job.py", "ci/run.py", "..py"]
 PATTERNS = ["*.py", "**/*.py", "**.py", "src/**", "src/*.py", "tests/**", "*/a.py", "a.py", "src/pkg/c.py", "**/c.py", "*", "**", "s*",
-            "*.txt", "src/?.py", "[ab].py", "src/[!a].py", "docs/**", "**/tests/**", "build/**", "nomatch/**"]
+            "*.txt", "src/?.py", "[ab].py", "src/[!a].py", "docs/**", "**/tests/**", "build/**", "nomatch/**",
+            # patterns that start with a dot or with `./` characters: nothing is stripped from a pattern
+            ".ci/**", ".ci/*.py", ".git/**", ".*/**", "ci/**", "./a.py", ".*"]
 
 
 def gen_pats(rng, paths, n, with_lines):
